@@ -55,3 +55,39 @@ theorem filter_after_call (root : CTy) (bl eb : List String) (lo : LogicOp) (us 
   simp only [vPartsF]
 
 end Mp
+
+/-! ### only a root field can be blocked: an `@` path that starts below the root (inside a filter, as an argument of a call on a
+    value reached by keys) is validated without regard to the blocked root fields, whatever its keys are called -/
+namespace Mp
+open Generated
+
+theorem finishKeysB_below_root (root : CTy) (bl : List String) (eb ks : List String) (h : eb ≠ []) :
+    finishKeysB root bl eb ks = finishKeysB root [] eb ks := by
+  unfold finishKeysB
+  cases eb with
+  | nil => exact absurd rfl h
+  | cons b bs => rfl
+
+theorem keys_below_root_not_blocked (root : CTy) (bl : List String) (eb : List String) (h : eb ≠ []) :
+    ∀ (names : List Bytes) (ks : List String),
+      vPartsF root bl eb (.keys ks) (names.map (fun n => PathPart.ident n false [])) =
+      vPartsF root [] eb (.keys ks) (names.map (fun n => PathPart.ident n false [])) := by
+  intro names
+  induction names with
+  | nil => intro ks; simp only [List.map_nil, vPartsF, finishKeysB_below_root root bl eb ks h]
+  | cons n ns ih =>
+    intro ks
+    simp only [List.map_cons, vPartsF]
+    cases bytesToString n with
+    | none => rfl
+    | some s => exact ih (ks ++ [s])
+
+/-- **C15**: inside a filter on `$.input.items`, the condition path `@.s2.name` is validated the same whether or not `s2` is a blocked
+    root field: the blocked list concerns root fields only -/
+theorem at_path_below_root_ignores_blocked (root : CTy) (bl base : List String) (h : base ≠ []) (i f m : Bool) (us : Bytes) (names : List Bytes) :
+    vPathF root bl base (.mk i false f m (names.map (fun n => PathPart.ident n false [])) us) =
+    vPathF root [] base (.mk i false f m (names.map (fun n => PathPart.ident n false [])) us) := by
+  simp only [vPathF, Bool.false_eq_true, if_false]
+  exact keys_below_root_not_blocked root bl base h names []
+
+end Mp
